@@ -20,7 +20,7 @@ RULE = ('tree models (generator of C13: nested blocks, leaves, references, one o
         'abstract processor call; after every load the class snapshot equals the pre-load snapshot and no per-object '
         'storage is left. distinct = (class variant, tree shape, outcome); non-trivial = failing load or two-file load')
 REQUIRED = {'loads': 600, 'failed_loads': 100, 'init_calls_checked': 3000, 'snapshots_compared': 600, 'two_file_loads': 50,
-            'nested_failures': 15, 'class_variants': 4}
+            'nested_failures': 15, 'class_variants': 4, 'loads_aborted_by_base_exception': 50}
 
 ATTRS = {'Block': {'name', 'first', 'items', 'alt', 'tag'}, 'Leaf': {'name', 'val'}, 'Ref': {'name', 'target'}}
 VARIANTS = ['plain', 'slots', 'frozen', 'dunders', 'inherited']
@@ -92,6 +92,10 @@ class Boom(Exception):
     pass
 
 
+class Abort(BaseException):
+    """a load can also be aborted by something that is not an Exception (KeyboardInterrupt, SystemExit, pytest's skip)"""
+
+
 def one(ctx, i, rep=None):
     from textx import metamodel_from_str, TextXError
     from textx.model import ObjCrossRef
@@ -102,7 +106,7 @@ def one(ctx, i, rep=None):
     ctx.maxc('max_class_variants', i % len(VARIANTS) + 1)
     log = []
     clock = [0]
-    fail_cfg = {'init_at': None, 'match': False, 'objproc': None}
+    fail_cfg = {'init_at': None, 'match': False, 'objproc': None, 'base': False}
 
     def rec(kind, obj, kw):
         clock[0] += 1
@@ -111,7 +115,7 @@ def one(ctx, i, rep=None):
             fail_cfg['init_at'] -= 1
             if fail_cfg['init_at'] < 0:
                 fail_cfg['init_at'] = None
-                raise Boom('constructor failure')
+                raise (Abort if fail_cfg['base'] else Boom)('constructor failure')
     classes = make_classes(variant, rec)
     user_kinds = {c.__name__ for c in classes if c.__name__ in ATTRS}
 
@@ -121,14 +125,14 @@ def one(ctx, i, rep=None):
             if is_match:
                 if fail_cfg['match']:
                     fail_cfg['match'] = False
-                    raise TextXError('match processor failure')
+                    raise (Abort if fail_cfg['base'] else TextXError)('match processor failure')
                 return None
             log.append(('proc', rule, id(x), None, clock[0]))
             if fail_cfg['objproc'] is not None:
                 fail_cfg['objproc'] -= 1
                 if fail_cfg['objproc'] < 0:
                     fail_cfg['objproc'] = None
-                    raise Boom('object processor failure')
+                    raise (Abort if fail_cfg['base'] else Boom)('object processor failure')
             return None
         return p
     mm = metamodel_from_str(T.GRAMMAR, classes=classes)
@@ -162,7 +166,7 @@ def one(ctx, i, rep=None):
                                 'nested-syntax'])
             if failure in ('nested-unknown', 'nested-syntax') and not two_files:
                 failure = 'unknown-ref'
-            fail_cfg.update(init_at=None, match=False, objproc=None)
+            fail_cfg.update(init_at=None, match=False, objproc=None, base=r.random() < 0.3)
             nobj = sum(1 for rt in roots for n in T.all_nodes(rt) if n['kind'] in user_kinds)
             if failure == 'syntax':
                 texts[0] = texts[0] + '\n}}} garbage'
@@ -204,6 +208,9 @@ def one(ctx, i, rep=None):
                 outcome = 'textx-error'
             except Boom:
                 outcome = 'boom'
+            except Abort:
+                outcome = 'abort (BaseException)'
+                ctx.count('loads_aborted_by_base_exception')
             except TypeError as e:
                 outcome = 'typeerror' if 'constructor failure' in str(e) or failure == 'init' else 'unexpected TypeError: %s' % e
             ctx.count('loads')
